@@ -21,7 +21,7 @@ struct Transfer {
 
 impl Transfer {
     fn new(tick: i32, base: i32, len: usize, salt: u64) -> Transfer {
-        Transfer { tick, base, crc: 0x1234_5678 ^ tick ^ (len as i32), data: vp_core::lcg_bytes(salt ^ len as u64, len) }
+        Transfer { tick, base, crc: (if (tick ^ len as i32) & 1 == 0 { 0x1234_5678 } else { 0x9234_5678u32 as i32 }) ^ tick ^ (len as i32), data: vp_core::lcg_bytes(salt ^ len as u64, len) }
     }
     fn msgs(&self) -> Vec<SnapMsg<'_>> {
         delta_chunks(self.tick, self.base, &self.data, self.crc).collect()
@@ -126,8 +126,18 @@ fn main() {
     let thorough = run.tier == Tier::Thorough;
     let maxn = if thorough { 6 } else { 5 };
     let ticks: Vec<(i32, i32)> = vec![(4, 1), (10, 3), (3, -1), (1000, 0), (7, 6), (i32::MAX - 2, i32::MAX - 4)];
+    let mut value_ticks: Vec<(i32, i32)> = vec![(3, 2), (i32::MAX - 2, 0), (i32::MAX - 2, 1), (i32::MAX - 2, i32::MAX - 3), (0x7fff_0000, 0x7ffe_ffff), (65536, 65535), (65538, 2), (256, 255), (255, -1), (128, 1), (127, -1)];
+    for k in [6u32, 13, 20, 27, 30] {
+        for d in [-1i32, 0, 1] {
+            let t = (1i32 << k) + d;
+            value_ticks.push((t, -1));
+            value_ticks.push((t, t - 1));
+            value_ticks.push((t, t - (1 << (k - 1))));
+            value_ticks.push((t + (1 << (k - 2)), d + 4));
+        }
+    }
     // --- exhaustive part: n <= maxn parts, all sequences of length <= n+2
-    let mut jobs: Vec<(usize, (i32, i32), usize)> = Vec::new();
+    let mut jobs: Vec<(usize, (i32, i32), usize, Option<[i32; 4]>)> = Vec::new();
     for n in 0..=maxn {
         let lens: Vec<usize> = match n {
             0 => vec![0],
@@ -136,16 +146,36 @@ fn main() {
         };
         for &tb in &ticks {
             for &l in &lens {
-                jobs.push((n, tb, l));
+                jobs.push((n, tb, l, None));
+            }
+        }
+        // tick / base values on both sides of every length boundary of the variable-length
+        // integer code, bases far behind and right behind, the largest ticks (small part counts)
+        if n <= 3 {
+            for &tb in &value_ticks {
+                jobs.push((n, tb, lens[lens.len() - 1], None));
+                jobs.push((n, tb, lens[0], None));
+            }
+            // older and newer ticks that are far away: more than 2^31 below / above the current
+            // one (negative ticks are legal values of the field), next to the ends of the range
+            for (tb, far) in [
+                ((1_500_000_000, 1_499_999_990), [-1_500_000_000, -5, 1_500_000_001, i32::MAX - 1]),
+                ((-1_500_000_000, -1_500_000_001), [i32::MIN + 1, -1_500_000_005, 1_500_000_000, -3]),
+                ((5, -1), [i32::MIN + 1, -1, i32::MAX - 1, 6]),
+                ((-5, -6), [-2_000_000_000, -6, 2_000_000_000, -4]),
+                ((i32::MAX - 10, i32::MAX - 11), [-50, i32::MIN + 2, i32::MAX - 9, i32::MAX - 1]),
+            ] {
+                jobs.push((n, tb, lens[lens.len() - 1], Some(far)));
             }
         }
     }
-    for (n, (tick, base), len) in jobs {
+    for (n, (tick, base), len, far) in jobs {
         let cur = Transfer::new(tick, base, len, 1);
-        let older2 = Transfer::new(tick - 1, base.min(tick - 2), 1000, 2);
-        let older1 = Transfer::new(tick - 2, base.min(tick - 3), 10, 3);
-        let newer2 = Transfer::new(tick + 1, tick, 1500, 4);
-        let newer1 = Transfer::new(tick + 2, base, 20, 5);
+        let (older2, older1, newer2, newer1) = match far {
+            None => (Transfer::new(tick - 1, base.min(tick - 2), 1000, 2), Transfer::new(tick - 2, base.min(tick - 3), 10, 3), Transfer::new(tick + 1, tick, 1500, 4), Transfer::new(tick + 2, base, 20, 5)),
+            // (bases right behind, so that the sender's own subtraction stays in range)
+            Some([o2, o1, n2, n1]) => (Transfer::new(o2, o2 - 1, 1000, 2), Transfer::new(o1, o1 - 1, 10, 3), Transfer::new(n2, n2 - 1, 1500, 4), Transfer::new(n1, n1 - 1, 20, 5)),
+        };
         let transfers = vec![cur, older2, older1, newer2, newer1];
         let nparts = transfers[0].msgs().len();
         assert_eq!(nparts, n.max(1));
@@ -169,7 +199,7 @@ fn main() {
                     i /= a;
                 }
                 lc.eval();
-                let case = || json!({"tick": tick, "base_tick": base, "data_len": len, "parts": nparts, "sequence_transfer_part": seq, "transfers": ["current", "older 2-part", "older single", "newer 2-part", "newer single"]});
+                let case = || json!({"tick": tick, "base_tick": base, "data_len": len, "parts": nparts, "sequence_transfer_part": seq, "transfers": ["current", "older 2-part", "older single", "newer 2-part", "newer single"], "ticks_of_the_other_transfers": far});
                 match vp_core::catch(|| run_sequence(&transfers, &seq)) {
                     Ok(Ok(c)) => {
                         let h = c.matches('H').count();
@@ -247,7 +277,7 @@ fn main() {
     run.assume("messages are produced by the real sender (snap::delta_chunks); tick/base pairs are those for which the sender's own subtraction does not overflow");
     run.assume("for more than the exhaustive part count only listed permutation families (identity, reverse, every rotation, evens-then-odds, each with single duplications) are run - labelled as families, not exhaustive");
     run.finish(
-        &format!("for every part count n <= {} (data lengths on both sides of every 900-byte boundary, 6 tick/base pairs): all sequences of length <= n+2 over the alphabet {{each part of the current tick, a part of an older 2-part transfer, an older single-part message, a part of a newer 2-part transfer, a newer single-part message}} against a reference receiver (set of part numbers for the newest tick): hand-out exactly when complete, exactly once, with original data/tick/absolute base/crc, zero warnings; listed permutation families up to 32 parts", maxn),
+        &format!("for every part count n <= {} (data lengths on both sides of every 900-byte boundary, 6 tick/base pairs; for n <= 3 additionally 71 tick/base pairs on both sides of every integer-length boundary, with far and near bases, positive and negative checksums, and 5 settings in which the older / newer ticks are more than 2^31 away from the current one, negative ticks included): all sequences of length <= n+2 over the alphabet {{each part of the current tick, a part of an older 2-part transfer, an older single-part message, a part of a newer 2-part transfer, a newer single-part message}} against a reference receiver (set of part numbers for the newest tick): hand-out exactly when complete, exactly once, with original data/tick/absolute base/crc, zero warnings; listed permutation families up to 32 parts", maxn),
         true,
     );
 }
